@@ -8,22 +8,37 @@ package loader
 //@ func assignDefaultProcessValues
 //@   requires p != nil
 //@   ensures defaults: forall n string :: n in p.Processes ==> p.Processes[n].Name == n && p.Processes[n].Namespace != "" && p.Processes[n].Replicas >= 1 && p.Processes[n].LaunchTimeout >= 1
-//@   ensures keys: forall n string :: n in p.Processes <==> n in old(p.Processes)
-//@   ensures default-namespace: forall n string :: n in old(p.Processes) && old(p.Processes[n].Namespace) == "" ==> p.Processes[n].Namespace == "default"
-//@   ensures kept: forall n string :: n in old(p.Processes) ==>
+//@   ensures keys: forall n string :: n in p.Processes <==> old(n in p.Processes)
+//@   ensures default-namespace: forall n string :: old(n in p.Processes) && old(p.Processes[n].Namespace) == "" ==> p.Processes[n].Namespace == "default"
+//@   ensures kept: forall n string :: old(n in p.Processes) ==>
 //@        (old(p.Processes[n].Namespace) != "" ==> p.Processes[n].Namespace == old(p.Processes[n].Namespace)) &&
 //@        (old(p.Processes[n].Replicas) >= 1 ==> p.Processes[n].Replicas == old(p.Processes[n].Replicas)) &&
 //@        (old(p.Processes[n].LaunchTimeout) >= 1 ==> p.Processes[n].LaunchTimeout == old(p.Processes[n].LaunchTimeout)) &&
 //@        p.Processes[n].Command == old(p.Processes[n].Command) && p.Processes[n].WorkingDir == old(p.Processes[n].WorkingDir) &&
 //@        p.Processes[n].Environment == old(p.Processes[n].Environment) && p.Processes[n].DependsOn == old(p.Processes[n].DependsOn)
 //@   loop 1 invariant p.Processes != nil && (old(p.Processes) != nil ==> p.Processes == old(p.Processes))
-//@   loop 1 invariant forall n string :: n in p.Processes <==> n in old(p.Processes)
+//@   loop 1 invariant forall n string :: n in p.Processes <==> old(n in p.Processes)
 //@   loop 1 invariant forall n string :: seen(n) && n in p.Processes ==> p.Processes[n].Name == n && p.Processes[n].Namespace != "" && p.Processes[n].Replicas >= 1 && p.Processes[n].LaunchTimeout >= 1
 //@   loop 1 invariant forall n string :: !seen(n) && n in p.Processes ==> p.Processes[n] == old(p.Processes[n])
-//@   loop 1 invariant forall n string :: seen(n) && n in old(p.Processes) ==>
+//@   loop 1 invariant forall n string :: seen(n) && old(n in p.Processes) ==>
 //@        (old(p.Processes[n].Namespace) == "" ==> p.Processes[n].Namespace == "default") &&
 //@        (old(p.Processes[n].Namespace) != "" ==> p.Processes[n].Namespace == old(p.Processes[n].Namespace)) &&
 //@        (old(p.Processes[n].Replicas) >= 1 ==> p.Processes[n].Replicas == old(p.Processes[n].Replicas)) &&
 //@        (old(p.Processes[n].LaunchTimeout) >= 1 ==> p.Processes[n].LaunchTimeout == old(p.Processes[n].LaunchTimeout)) &&
 //@        p.Processes[n].Command == old(p.Processes[n].Command) && p.Processes[n].WorkingDir == old(p.Processes[n].WorkingDir) &&
 //@        p.Processes[n].Environment == old(p.Processes[n].Environment) && p.Processes[n].DependsOn == old(p.Processes[n].DependsOn)
+
+// C15: no KEY=VALUE entry is lost when environment lists are merged by key, whatever the value contains;
+// the value is everything after the first '='.
+//@ func toEnvVarMap
+//@   let env = unbox(s, "types.Environment")
+//@   ensures ok: typeis(s, "types.Environment") ==> result1 == nil && result0 != nil
+//@   ensures all-entries: typeis(s, "types.Environment") ==> (forall i int :: 0 <= i && i < len(env) && sepCount(env[i], "=") >= 1 ==> boxed(partBefore(env[i], "=")) in result0)
+//@   ensures values: typeis(s, "types.Environment") ==> (forall i int :: 0 <= i && i < len(env) && sepCount(env[i], "=") >= 1 &&
+//@        (forall j int :: 0 <= j && j < len(env) && j != i ==> partBefore(env[j], "=") != partBefore(env[i], "=")) ==> result0[boxed(partBefore(env[i], "="))] == boxed(partAfter(env[i], "=")))
+//@   loop 1 invariant mnil: m != nil
+//@   loop 1 invariant mfresh: fresh(m)
+//@   loop 1 invariant idxlo: idx >= -1
+//@   loop 1 invariant forall i int :: 0 <= i && i <= idx && sepCount(env[i], "=") >= 1 ==> boxed(partBefore(env[i], "=")) in m
+//@   loop 1 invariant forall i int :: 0 <= i && i <= idx && sepCount(env[i], "=") >= 1 &&
+//@        (forall j int :: 0 <= j && j <= idx && j != i ==> partBefore(env[j], "=") != partBefore(env[i], "=")) ==> m[boxed(partBefore(env[i], "="))] == boxed(partAfter(env[i], "="))
